@@ -121,6 +121,8 @@ func crashPlans(check, tier string) []crashPlan {
 			{alpha, 2, crashConfigs(""), 1, 2, 1, []string{"s0"}, false},
 			{alpha, 1, crashConfigs(""), 2, 3, 1, nil, false},
 			{[]string{"we", "w2", "w1", "p"}, 2, crashConfigs(""), 0, 1, 1, []string{"s0"}, true},
+			// one argument above 1 MiB in front of / behind ordinary items: every stored position is still a command end
+			{[]string{"wM", "w1", "t1"}, 2, crashConfigs("")[:3], 0, 1, 1, []string{"s0"}, false},
 			// input.syncDelayTestKey configured: the probe is an ordinary stream item with extra handling
 			{[]string{"pr", "w1", "t1", "p"}, 2, crashConfigs("probe"), 1, 2, 1, []string{"s0"}, false},
 		}
